@@ -25,7 +25,7 @@ ASSUMPTIONS = [
 ]
 GATES = ["crc_compared", "append_zero_checked", "single_bit_checked", "double_bit_checked", "odd_checked",
          "burst_checked", "validate0_checked", "lengths_enumerated",
-         "syndrome_targeted_bursts", "nested_frames"]
+         "syndrome_targeted_bursts", "nested_frames", "intact_parsed_first", "flag_values_checked"]
 
 FRAME_LENGTHS = (6, 8, 9, 12, 25, 134, 261, 262, 517, 1029)
 
@@ -77,6 +77,35 @@ def damaged_case(ctx, frame, positions, cls):
 
 
 syndrome_burst = streams.syndrome_burst
+
+
+def intact_ok(ctx, frame):
+    """Parse the intact frame with validation on and off (any outcome but a foreign exception is fine here)."""
+    from pyrtcm import RTCMReader
+
+    for v in (1, 0, 1):
+        try:
+            RTCMReader.parse(frame, validate=v)
+        except common.lib_errors():
+            pass
+    ctx.hit("intact_parsed_first")
+
+
+def flagged_case(ctx, frame, positions, validate):
+    """validate values other than 1 that have the checksum bit set (3, 5, True): a damaged frame must
+    not be returned as a message (which exception is raised is not pinned for such values)."""
+    from pyrtcm import RTCMReader
+
+    bad = streams.flip(frame, positions)
+    try:
+        RTCMReader.parse(bad, validate=validate)
+    except Exception:
+        ctx.hit("flag_values_checked")
+        return True
+    ctx.violation("damage-accepted", f"validate={validate!r} (checksum bit set): damage at bits {list(positions)[:6]} of a "
+                  f"{len(frame)}-byte frame was accepted", {"kind": "flagged", "frame": frame.hex(),
+                                                            "positions": list(positions), "validate": int(validate)})
+    return False
 
 
 def validate0_case(ctx, frame, newcrc):
@@ -157,6 +186,7 @@ def run(ctx):
     for idx, (L, rep) in enumerate(work):
         fr = make_frame(frng, L)
         nb = L * 8
+        intact_ok(ctx, fr)  # the intact frame is parsed first: later damaged copies must still be rejected
         # all single-bit errors, partitioned between workers
         for b in range(nb):
             if (b + idx) % ctx.nworkers == ctx.worker:
@@ -218,6 +248,10 @@ def run(ctx):
                     ctx.hit("syndrome_targeted_bursts")
                     if not damaged_case(ctx, fr, pos, "burst"):
                         return
+        for v in (True, 3, 5):
+            for _ in range(4):
+                if not flagged_case(ctx, fr, (rng.randrange(nb),), v):
+                    return
         # (3) validate=0
         for _ in range(6 if ctx.quick else 60):
             newcrc = bytes(rng.getrandbits(8) for _ in range(3))
@@ -259,6 +293,8 @@ def replay(ctx, p):
     monitors.install_crc_monitor()
     if p["kind"] == "crc":
         crc_case(ctx, bytes.fromhex(p["data"]), "replay")
+    elif p["kind"] == "flagged":
+        flagged_case(ctx, bytes.fromhex(p["frame"]), tuple(p["positions"]), p["validate"])
     elif p["kind"] == "damage":
         damaged_case(ctx, bytes.fromhex(p["frame"]), tuple(p["positions"]), p["cls"])
     else:
